@@ -27,11 +27,12 @@ Lemma step_refines : forall sch st s r t', wf_schema sch -> Inv sch st ->
   spec_step sch (visible st) s = Some (r, t') ->
   exists st', step true sch st s = (r, st') /\ visible st' = t' /\ Inv sch st'.
 Proof.
-  intros sch st s r t' Hwf HI Hm H. destruct s as [rows ret|w ret|sets w ret|].
+  intros sch st s r t' Hwf HI Hm H. destruct s as [rows ret|w ret|sets w ret| |].
   - eapply insert_refines; eassumption.
   - eapply delete_refines; eassumption.
   - eapply update_refines; eassumption.
   - eapply truncate_refines; eassumption.
+  - cbn [spec_step step] in *. inversion H; subst. exists st. split; [reflexivity|]. split; [reflexivity|exact HI].
 Qed.
 
 Definition modelled_trace (tr : list obs) : Prop := Forall (fun o => o_res o <> RUnmod) tr.
@@ -139,8 +140,8 @@ Qed.
 Lemma step_true_dead : forall sch st s id, id < nextid st -> live_id st id = false ->
   nextid st <= nextid (snd (step true sch st s)) /\ live_id (snd (step true sch st s)) id = false.
 Proof.
-  intros sch st s id Hid Hd. destruct s as [rows ret|w ret|sets w ret|]; cbn [step].
-  - unfold do_insert. destruct (forallb (row_fits (s_tys sch)) rows); [|cbn [snd]; split; [lia|exact Hd]].
+  intros sch st s id Hid Hd. destruct s as [rows ret|w ret|sets w ret| |]; cbn [step].
+  - unfold do_insert. destruct (forallb (row_known (s_tys sch)) rows); [|cbn [snd]; split; [lia|exact Hd]].
     destruct (ins_loop sch st rows 0) as [[b s1] n] eqn:E. destruct (ins_loop_ids _ _ _ _ _ _ _ id E Hid) as [H1 H2].
     destruct b; cbn [snd]; [|split; [lia|exact Hd]].
     unfold add_count, live_id. cbn [nextid ents]. split; [exact H1|]. unfold live_id in H2. rewrite H2. exact Hd.
@@ -165,6 +166,7 @@ Proof.
       apply existsb_exists. exists s. split; [exact Hs|]. rewrite Hsid, C1, Ls. reflexivity.
     + subst e. apply existsb_exists. exists e0. split; [exact Hin|]. rewrite C1, C2. reflexivity.
   - unfold do_truncate. cbn [snd nextid]. split; [lia|reflexivity].
+  - cbn [snd]. split; [lia|exact Hd].
 Qed.
 
 (* repaired mechanism: a row id that has been handed out and is not visible is never visible
